@@ -140,40 +140,42 @@ fn d_str() {
 }
 
 impl S for Contract {
-    #[storage(read, write)] fn vec_push(f: u64, v: u64) { vk(f).push(v); }
-    #[storage(read, write)] fn vec_pop(f: u64) { lo64(vk(f).pop()); }
-    #[storage(read, write)] fn vec_insert(f: u64, i: u64, v: u64) { vk(f).insert(i, v); }
-    #[storage(read, write)] fn vec_remove(f: u64, i: u64) { log(vk(f).remove(i)); }
-    #[storage(read, write)] fn vec_swap_remove(f: u64, i: u64) { log(vk(f).swap_remove(i)); }
-    #[storage(read, write)] fn vec_set(f: u64, i: u64, v: u64) { vk(f).set(i, v); }
-    #[storage(read, write)] fn vec_swap(f: u64, i: u64, j: u64) { vk(f).swap(i, j); }
-    #[storage(read, write)] fn vec_resize(f: u64, n: u64, v: u64) { vk(f).resize(n, v); }
-    #[storage(read, write)] fn vec_reverse(f: u64) { vk(f).reverse(); }
-    #[storage(read, write)] fn vec_fill(f: u64, v: u64) { vk(f).fill(v); }
+    #[storage(read, write)] fn vec_push(f: u64, v: u64) { vk(f).push(v); d_vec(); }
+    #[storage(read, write)] fn vec_pop(f: u64) { lo64(vk(f).pop()); d_vec(); }
+    #[storage(read, write)] fn vec_insert(f: u64, i: u64, v: u64) { vk(f).insert(i, v); d_vec(); }
+    #[storage(read, write)] fn vec_remove(f: u64, i: u64) { log(vk(f).remove(i)); d_vec(); }
+    #[storage(read, write)] fn vec_swap_remove(f: u64, i: u64) { log(vk(f).swap_remove(i)); d_vec(); }
+    #[storage(read, write)] fn vec_set(f: u64, i: u64, v: u64) { vk(f).set(i, v); d_vec(); }
+    #[storage(read, write)] fn vec_swap(f: u64, i: u64, j: u64) { vk(f).swap(i, j); d_vec(); }
+    #[storage(read, write)] fn vec_resize(f: u64, n: u64, v: u64) { vk(f).resize(n, v); d_vec(); }
+    #[storage(read, write)] fn vec_reverse(f: u64) { vk(f).reverse(); d_vec(); }
+    #[storage(read, write)] fn vec_fill(f: u64, v: u64) { vk(f).fill(v); d_vec(); }
     #[storage(read, write)] fn vec_store(f: u64, n: u64, base: u64) {
         let mut v: Vec<u64> = Vec::new();
         let mut j = 0;
         while j < n { v.push(base + j); j += 1; }
         vk(f).store_vec(v);
+        d_vec();
     }
-    #[storage(read, write)] fn vec_clear(f: u64) { lb(vk(f).clear()); }
+    #[storage(read, write)] fn vec_clear(f: u64) { lb(vk(f).clear()); d_vec(); }
     #[storage(read)] fn dump_vec() { d_vec(); }
-    #[storage(read, write)] fn map_insert(f: u64, k: u64, v: u64) { mk(f).insert(k, v); }
-    #[storage(read, write)] fn map_remove(f: u64, k: u64) { lb(mk(f).remove(k)); }
+    #[storage(read, write)] fn map_insert(f: u64, k: u64, v: u64) { mk(f).insert(k, v); d_map(); }
+    #[storage(read, write)] fn map_remove(f: u64, k: u64) { lb(mk(f).remove(k)); d_map(); }
     #[storage(read, write)] fn map_try_insert(f: u64, k: u64, v: u64) {
         match mk(f).try_insert(k, v) {
             Ok(x) => { log(1u64); log(x); },
             Err(StorageMapError::OccupiedError(p)) => { log(0u64); log(p); },
         }
+        d_map();
     }
-    #[storage(read, write)] fn map_write(f: u64, k: u64, v: u64) { mk(f).get(k).write(v); }
-    #[storage(read, write)] fn map_clear(f: u64, k: u64) { lb(mk(f).get(k).clear()); }
+    #[storage(read, write)] fn map_write(f: u64, k: u64, v: u64) { mk(f).get(k).write(v); d_map(); }
+    #[storage(read, write)] fn map_clear(f: u64, k: u64) { lb(mk(f).get(k).clear()); d_map(); }
     #[storage(read)] fn dump_map() { d_map(); }
-    #[storage(read, write)] fn bytes_write(f: u64, n: u64, seed: u64) { bk(f).write_slice(mkbytes(n, seed)); }
-    #[storage(read, write)] fn bytes_clear(f: u64) { lb(bk(f).clear()); }
+    #[storage(read, write)] fn bytes_write(f: u64, n: u64, seed: u64) { bk(f).write_slice(mkbytes(n, seed)); d_bytes(); }
+    #[storage(read, write)] fn bytes_clear(f: u64) { lb(bk(f).clear()); d_bytes(); }
     #[storage(read)] fn dump_bytes() { d_bytes(); }
-    #[storage(read, write)] fn str_write(f: u64, n: u64, seed: u64) { sk(f).write_slice(String::from_ascii(mkbytes(n, seed))); }
-    #[storage(read, write)] fn str_clear(f: u64) { lb(sk(f).clear()); }
+    #[storage(read, write)] fn str_write(f: u64, n: u64, seed: u64) { sk(f).write_slice(String::from_ascii(mkbytes(n, seed))); d_str(); }
+    #[storage(read, write)] fn str_clear(f: u64) { lb(sk(f).clear()); d_str(); }
     #[storage(read)] fn dump_str() { d_str(); }
     #[storage(read)] fn dump_all() { d_vec(); d_map(); d_bytes(); d_str(); }
 }
@@ -295,6 +297,7 @@ impl K {
             K::Str => "StorageString",
         }
     }
+    #[allow(dead_code)]
     fn dump_fn(&self) -> &'static str {
         match self {
             K::Vec => "dump_vec",
@@ -660,7 +663,7 @@ fn dfs(k: K, full: bool, w: &World, depth_left: u32, step: u64, acc: &mut Acc, s
         ex.transitions += 1;
         *ex.ops_seen.entry(s.label.split('|').next().unwrap_or("").to_string()).or_insert(0) += 1;
         let (bl, ll, cl, dl) = (acc.body.len(), acc.logs.len(), acc.classes.len(), acc.descs.len());
-        acc.body.push_str(&format!("    {} c.{}();\n", s.call, k.dump_fn()));
+        acc.body.push_str(&format!("    {}\n", s.call));
         acc.descs.push(s.call.trim_start_matches("c.").to_string());
         match &s.next {
             None => {
@@ -747,8 +750,11 @@ fn generate(thorough: bool) -> (Vec<RawCase>, Explore, Vec<(String, u64, u64)>) 
         let mut label = "fresh deployment";
         if p.populated {
             // v0 = [7, 8], v1 = [9] through store_vec (2 + 1 elements), then a read-back
-            acc.body.push_str("    c.vec_store(0, 2, 7); c.vec_store(1, 1, 9); c.dump_vec();\n");
+            acc.body.push_str("    c.vec_store(0, 2, 7); c.vec_store(1, 1, 9);\n");
             w.v[0] = VecF { items: vec![7, 8], len_set: true };
+            for f in 0..2 {
+                w.dump_kind(K::Vec, f, &mut acc.logs);
+            }
             w.v[1] = VecF { items: vec![9], len_set: true };
             for f in 0..2 {
                 w.dump_kind(K::Vec, f, &mut acc.logs);
@@ -807,7 +813,8 @@ fn run(a: &vhcore::Args) -> i32 {
     }
     rep.set("modeF_equals_modeA", true);
 
-    let rr = run_raw(&pool, "c28", PRELUDE, &all, 200, false);
+    // <= ~20 data-section words per contract call site: keep packages well below the 4096-word limit (C17)
+    let rr = run_raw(&pool, "c28", PRELUDE, &all, 120, false);
     let mut outcomes = vhcore::Distinct::default();
     let mut validated = 0u64;
     let mut reverts_expected = 0u64;
